@@ -1197,12 +1197,14 @@ Lemma flat_map_ext' : forall {A B} (f g : A -> list B) l, (forall a, f a = g a) 
 Proof. intros A B f g l H. induction l as [|a l IH]; simpl; [reflexivity | now rewrite H, IH]. Qed.
 
 Lemma vector_scalar_spec : forall ovf op rb swap sc v,
+  (rb = true -> is_cmp op = true) ->   (* the parser rejects bool on arithmetic operators *)
   vector_scalar_binop ovf op rb swap sc v = check_same (spec_vs ovf op rb swap sc v).
 Proof.
-  intros ovf op rb swap sc v. unfold vector_scalar_binop, spec_vs. f_equal.
+  intros ovf op rb swap sc v Hrb. unfold vector_scalar_binop, spec_vs. f_equal.
   apply flat_map_ext'. intros [l f].
-  destruct op, rb, swap; cbn [fst snd is_cmp changes_schema negb andb orb elem_binop]; try reflexivity;
-    match goal with |- context [if ?c then _ else _] => destruct c end; reflexivity.
+  destruct op, rb, swap; try (specialize (Hrb eq_refl); discriminate); cbn [fst snd is_cmp changes_schema negb andb orb elem_binop];
+    rewrite ?orb_true_r, ?orb_false_r, ?andb_true_r, ?andb_false_r; try reflexivity;
+    repeat (match goal with |- context [if ?c then _ else _] => destruct c end); reflexivity.
 Qed.
 
 (* ------------------------------------------------------------------ count_values *)
@@ -1231,8 +1233,9 @@ Proof.
   destruct (groups_of_partition (fun m : labels => group_key wo g' m) withv) as [_ [_ [Hcov Hmem]]].
   fold gs in Hcov, Hmem. split.
   - intros s Hs. rewrite map_map. cbn [fst].
-    assert (Hin : In (lset vl (fmt (snd s)) (fst s)) withv) by (unfold withv; now apply in_map).
-    apply Hcov in Hin. rewrite map_map in *. exact Hin.
+    assert (Hin : In (lset vl (fmt (snd s)) (fst s)) withv)
+      by (exact (in_map (fun s : sample => lset vl (fmt (snd s)) (fst s)) v s Hs)).
+    apply Hcov in Hin. exact Hin.
   - intros k c Hin. apply in_map_iff in Hin as [[k' ms] [Heq Hin]]. cbn [fst snd] in Heq.
     inversion Heq; subst k' c. clear Heq.
     destruct (Hmem _ _ Hin) as [Hne Hms].
